@@ -58,6 +58,9 @@ def plan(tier, seed):
     specs.append({"name": "orch", "kind": "orch", "shard": 91, "runs": 4 if tier == "quick" else 40, "timeout": 7000})
     for i in range(4):
         specs.append({"name": "comp%d" % i, "kind": "compound", "shard": 95 + i, "instances": 3 if tier == "quick" else 16, "timeout": 7000})
+    for i in range(4):
+        # session 4: long loci (33-160 SNVs): sampled states / sub-steps / intervals, the same exact edge identities
+        specs.append({"name": "long%d" % i, "kind": "long", "shard": 110 + i, "instances": 12 if tier == "quick" else 150, "timeout": 7000})
     return specs
 
 
@@ -69,6 +72,8 @@ def required(tier):
         "orch_mutation_calls": 100, "orch_swap_calls": 50, "rows_cache_enabled": 500, "recomb_rows_with_options": 100,
         "dosage_rows_with_options": 100, "compound_kernels_checked": 10, "compound_paths_enumerated": 2000,
         "instances_ploidy_5_6_three_sites": 10,
+        "long_instances": 8, "long_db_edges_base": 300, "long_db_edges_base_copy_number_changes": 40, "long_db_edges_interval": 40,
+        "long_db_edges_base_beyond_site_64": 40,
     }
 
 
@@ -122,17 +127,73 @@ def make_instance(rng, tier):
                 use_cache=bool(rng.random() < 0.5), rich=bool(rich))
 
 
+def make_long_instance(rng, tier):
+    """A locus of 33-160 SNVs (mostly bi-allelic).  The state space cannot be enumerated; states are built from 2-3 founder
+    haplotypes (duplicated rows are the rule) with a few point differences, and reads cover windows of 8-30 sites so that every
+    likelihood the oracle needs stays a normal double."""
+    ploidy = int(rng.choice([2, 3, 4, 4, 5, 6]))
+    n_pos = int(rng.choice([33, 40, 48, 64, 65, 70, 96, 128, 129, 160]))
+    n_alleles = rng.choice([2, 2, 2, 2, 3, 4], size=n_pos)
+    n_nucl = int(n_alleles.max())
+    founders = [np.array([rng.integers(0, a) for a in n_alleles], dtype=np.int8) for _ in range(int(rng.integers(2, 4)))]
+    n_reads = int(rng.integers(4, 14))
+    reads = np.full((n_reads, n_pos, n_nucl), np.nan)
+    err = float(rng.choice([0.001, 0.01, 0.05]))
+    for r in range(n_reads):
+        w = int(rng.integers(8, 31))
+        lo = int(rng.integers(0, n_pos - w + 1))
+        hap = founders[int(rng.integers(len(founders)))]
+        for j in range(lo, lo + w):
+            if rng.random() < 0.1:
+                continue
+            na = int(n_alleles[j])
+            call = int(hap[j]) if rng.random() > 0.03 else int(rng.integers(na))
+            row = np.zeros(n_nucl)
+            row[:na] = err / max(1, na - 1) if na > 1 else 1.0
+            row[call] = 1 - err
+            reads[r, j] = row
+    counts = gen.gen_counts(rng, n_reads)
+    F = float(rng.choice([0.0, 0.01, 0.3, 0.9]))
+    T = float(rng.choice([1.0, 1.0, 0.3, 0.05]))
+    return dict(ploidy=ploidy, n_alleles=n_alleles.astype(np.int8), reads=reads, counts=counts, F=F, T=T,
+                use_cache=bool(rng.random() < 0.5), rich=False, long=True, founders=[f.tolist() for f in founders])
+
+
+def long_states(rng, I, n_states):
+    founders = [np.array(f, dtype=np.int8) for f in I["founders"]]
+    n_pos = len(I["n_alleles"])
+    out = []
+    for _ in range(n_states):
+        rows = [founders[int(rng.integers(len(founders)))].copy() for _ in range(I["ploidy"])]
+        marks = []
+        for _k in range(int(rng.integers(0, 3))):
+            # a row one point mutation away from a founder: the sub-step at that cell splits / merges haplotypes
+            h = int(rng.integers(I["ploidy"]))
+            j = int(rng.choice([0, 1, n_pos - 1, int(rng.integers(n_pos)), int(rng.integers(n_pos))]))
+            na = int(I["n_alleles"][j])
+            rows[h][j] = (int(rows[h][j]) + 1 + int(rng.integers(na - 1))) % na if na > 1 else rows[h][j]
+            marks.append((h, j))
+        # rows in canonical order: the lumped-row memo is keyed by the multiset and keeps the ordered successors of the first
+        # ordering it saw (two orderings of one multiset made the successor monitor compare rows of different orderings: a
+        # false alarm of the first full run of this kind, DESIGN 8.3)
+        x = np.array(sorted(tuple(int(a) for a in r) for r in rows), dtype=np.int8).reshape(I["ploidy"], n_pos)
+        if any(x.tobytes() == y.tobytes() for y, _ in out):
+            continue
+        out.append((x, marks))
+    return out
+
+
 def pack_instance(I):
     return {"ploidy": I["ploidy"], "n_alleles": I["n_alleles"].tolist(), "reads": I["reads"].tolist(),
             "reads_shape": list(I["reads"].shape), "counts": None if I["counts"] is None else I["counts"].tolist(),
-            "F": I["F"], "T": I["T"], "use_cache": I["use_cache"]}
+            "F": I["F"], "T": I["T"], "use_cache": I["use_cache"], "long": bool(I.get("long")), "founders": I.get("founders")}
 
 
 def unpack_instance(d):
     return dict(ploidy=d["ploidy"], n_alleles=np.array(d["n_alleles"], dtype=np.int8),
                 reads=unjson_array(d["reads"], float).reshape(d["reads_shape"]),
                 counts=None if d["counts"] is None else np.array(d["counts"], dtype=np.int64),
-                F=d["F"], T=d["T"], use_cache=d.get("use_cache", False))
+                F=d["F"], T=d["T"], use_cache=d.get("use_cache", False), long=d.get("long", False), founders=d.get("founders"))
 
 
 class Target:
@@ -140,7 +201,7 @@ class Target:
 
     def __init__(self, I):
         self.I = I
-        self.n_haps = int(np.prod(I["n_alleles"].astype(int)))
+        self.n_haps = math.prod(int(a) for a in I["n_alleles"])
         self.memo = {}
 
     @staticmethod
@@ -277,17 +338,30 @@ def tags(I, x, col):
     return nontriv
 
 
-def check_instance(I, rng, col, tier, inst_id, only_state=None):
+def check_instance(I, rng, col, tier, inst_id, only_state=None, only_extra=None):
     tgt = Target(I)
     R = Rows(I, tgt, col)
-    states, exhaustive = choose_states(rng, I, tier)
+    is_long = bool(I.get("long"))
+    marks_of = {}
+    if is_long and only_state is not None:
+        x0 = np.array(only_state, dtype=np.int8)
+        ls = [(x0, [(h_, j_) for h_ in range(x0.shape[0]) for j_ in (only_extra or {}).get("js", [])])]
+        states, exhaustive = [x0], False
+        marks_of = {x0.tobytes(): ls[0][1]}
+    elif is_long:
+        ls = long_states(rng, I, 3 if tier == "quick" else 5)
+        states, exhaustive = [x for x, _ in ls], False
+        marks_of = {x.tobytes(): m for x, m in ls}
+        col.count("long_instances")
+    else:
+        states, exhaustive = choose_states(rng, I, tier)
     if exhaustive:
         col.count("instances_exhaustive")
     col.count("instances")
     if I.get("rich"):
         col.count("instances_ploidy_5_6_three_sites")
     ploidy, n_pos = I["ploidy"], len(I["n_alleles"])
-    intervals = [(a, b) for a in range(n_pos) for b in range(a + 1, n_pos + 1)]
+    intervals = [(a, b) for a in range(n_pos) for b in range(a + 1, n_pos + 1)] if not is_long else None
     packed = None
 
     def viol(mech, msg, x, extra=None):
@@ -308,8 +382,18 @@ def check_instance(I, rng, col, tier, inst_id, only_state=None):
             col.count("zero_likelihood_states_skipped")
             continue
         # ---------------- base_step ----------------
-        for h in range(ploidy):
-            for j in range(n_pos):
+        if is_long:
+            js = {0, 1, 2, n_pos - 1, n_pos - 2, n_pos - 33 if n_pos > 33 else 0, n_pos - 32 if n_pos > 32 else 0} | {int(v) for v in rng.integers(0, n_pos, size=5)}
+            js |= {j_ for _, j_ in marks_of.get(x.tobytes(), [])}
+            hj = [(h_, j_) for h_ in range(ploidy) for j_ in sorted(js)]
+            a_, b_ = sorted(int(v) for v in rng.choice(n_pos + 1, size=2, replace=False))
+            intervals = [(0, n_pos), (0, 1), (n_pos - 1, n_pos), (a_, b_), (0, int(rng.integers(1, n_pos))), (int(rng.integers(0, n_pos - 1)), n_pos),
+                         (max(0, n_pos - 40), n_pos - 20), (10, min(n_pos, 70))]
+            intervals = sorted({iv for iv in intervals if iv[0] < iv[1]})
+        else:
+            hj = [(h_, j_) for h_ in range(ploidy) for j_ in range(n_pos)]
+        for h, j in hj:
+            if True:
                 na = int(I["n_alleles"][j])
                 cur = int(x[h, j])
                 nontriv = tags(I, x, col)
@@ -343,6 +427,12 @@ def check_instance(I, rng, col, tier, inst_id, only_state=None):
                     p_back = R.base(x2, h, j)
                     ok, a, b = db_ok(tgt.log_nu(x), float(p[c]), tgt.log_nu(x2), float(p_back[cur]))
                     col.count("db_edges_base")
+                    if is_long:
+                        col.count("long_db_edges_base")
+                        if j >= 64:
+                            col.count("long_db_edges_base_beyond_site_64")
+                        if tgt.parts(x)[2] != tgt.parts(x2)[2]:
+                            col.count("long_db_edges_base_copy_number_changes")
                     col.maxv("max_db_residual_base", abs(a - b) / max(a, b, 1e-300))
                     if not ok:
                         viol("base-step-detailed-balance", "nu(x)K(x,x')=%.12g != nu(x')K(x',x)=%.12g at (h=%d,j=%d) %d->%d; K=%.6g K_back=%.6g T=%g F=%g"
@@ -399,6 +489,8 @@ def check_instance(I, rng, col, tier, inst_id, only_state=None):
                     back = lump2.get(kx, 0.0)
                     ok, a, b = db_ok(tgt.log_pi(x), pr, tgt.log_pi(x2), back)
                     col.count("db_edges_interval")
+                    if is_long:
+                        col.count("long_db_edges_interval")
                     col.maxv("max_db_residual_interval", abs(a - b) / max(a, b, 1e-300))
                     if not ok:
                         viol("interval-step-detailed-balance", "pi(G)K(G,G')=%.12g != pi(G')K(G',G)=%.12g interval %s type %d K=%.6g K_back=%.6g T=%g F=%g G'=%s"
@@ -470,6 +562,14 @@ def run_kernel(tier, seed, spec, col):
         check_instance(I, rng, col, tier, inst_id)
         if i == 0 and spec["shard"] == 0:
             col.sample({"instance": pack_instance(I)})
+
+
+def run_long(tier, seed, spec, col):
+    monitors.ensure_compiled()
+    for i in range(spec["instances"]):
+        rng = gen.rng_for(seed, ID, spec["shard"], i)
+        I = make_long_instance(rng, tier)
+        check_instance(I, rng, col, tier, spec["shard"] * 100000 + i)
 
 
 # ---------------------------------------------------------------------------
@@ -768,7 +868,7 @@ def run_compound(tier, seed, spec, col):
 
 
 def run_shard(tier, seed, spec, col):
-    {"kernel": run_kernel, "exchange": run_exchange, "orch": run_orch, "compound": run_compound}[spec["kind"]](tier, seed, spec, col)
+    {"kernel": run_kernel, "exchange": run_exchange, "orch": run_orch, "compound": run_compound, "long": run_long}[spec["kind"]](tier, seed, spec, col)
 
 
 def replay(obj, col):
@@ -777,6 +877,7 @@ def replay(obj, col):
     I = unpack_instance(c["instance"])
     if "state" in c:
         rng = np.random.default_rng(0)
-        check_instance(I, rng, col, "thorough", 0, only_state=c["state"])
+        ex = c.get("extra") or {}
+        check_instance(I, rng, col, "thorough", 0, only_state=c["state"], only_extra={"js": [ex["j"]] if "j" in ex else []})
     else:
         col.inconclusive_note("replay of exchange/orchestration cases: rerun the tier with the same VERIF_SEED")
